@@ -30,7 +30,7 @@ META = {
 
 
 def bounds(tier):
-    return {"deadline_ticks": [2, 3, 4], "max_attempts": 3,
+    return {"deadline_ticks": [0, 2, 3, 4], "max_attempts": 3,
             "wall_jump_deviations": 1 if tier == "quick" else 2}
 
 
@@ -40,7 +40,7 @@ def tasks(tier):
         durs, menu = [0, 1, 3], [1, 0, 9, "nan"]
     else:
         durs, menu = [0, 1, 2, 3, 5], [1, 0, 2, 9, "nan", "inf", -1]
-    for D, sl, hd in itertools.product([2, 3, 4], ["call", None], [None, "call"]):
+    for D, sl, hd in itertools.product([0, 2, 3, 4], ["call", None], [None, "call"]):
         if hd and sl is None:
             continue
         cfg = dict(M=3, deadline=D, alphabet=["ok", "x:T", "r:R"], durs=durs, dur_free=True,
